@@ -76,6 +76,24 @@ def _deps_current(deps):
     return bool(deps)
 
 
+def _cache_key(qual, idx, tmo):
+    import hashlib
+    return hashlib.sha256(('%s|%s|%s|%d|%d' % (tree_hash(), repo_root(), qual, idx, tmo)).encode()).hexdigest()[:40]
+
+
+def _store(task, out):
+    """keep a fully discharged result for reuse (same engine, contracts and repository modules)"""
+    if os.environ.get('PYVC_NOCACHE'):
+        return
+    if out.get('status') == 'ok' and out.get('results') and all(r['status'] == 'unsat' for r in out['results']):
+        try:
+            cache_dir = os.path.join(HERE, '.cache')
+            os.makedirs(cache_dir, exist_ok=True)
+            json.dump(out, open(os.path.join(cache_dir, _cache_key(*task) + '.json'), 'w'))
+        except Exception:
+            pass
+
+
 def _task(args):
     qual, idx, tmo = args
     cache_dir = os.path.join(HERE, '.cache')
@@ -129,7 +147,7 @@ def verify_functions(quals, timeout_ms, procs=None):
     # budget, so that machine load does not flip a verdict
     for k, (o, t) in enumerate(zip(outs, tasks)):
         unk = set(r['name'] for r in o.get('results', []) if r['status'] == 'unknown')
-        if not unk or o.get('cached'):
+        if not unk or o.get('cached') or len(unk) > 4:
             continue
         redo = RUN.verify_case(repo_root(), t[0], t[1], timeout_ms=max(t[2], 30000), only_names=unk)
         better = dict((r['name'], r) for r in redo.get('results', []) if r['status'] != 'unknown' and r['kind'] != 'vacuity')
@@ -138,6 +156,7 @@ def verify_functions(quals, timeout_ms, procs=None):
             for r in o['results']:
                 if r['name'] in better:
                     r['detail'] = 'decided in a sequential re-run. ' + (r.get('detail') or '')
+            _store(t, o)
     return outs
 
 
